@@ -633,6 +633,7 @@ func (i *Interp) runPath(harness *ssa.Function, item workItem) {
 	i.stubs = nil
 	i.symSched = false
 	i.preemptBudget = 0
+	i.lateBudget, i.lateVictim, i.lateLeft = 0, nil, 0
 	i.switches = 0
 	i.pendingAbort = nil
 	i.mutexes = map[*value]*mstate{}
